@@ -397,7 +397,9 @@ func (c *c14Ctx) mutResult(m *c14Mut, res *C14Res) {
 		}
 	}
 	// tie: encryption streams as Decrypt reads them -> sd line; OpenReader must agree
-	if m.fix.pw != "" {
+	// (not in-process when the worker crashed or allocated a lot: extractPart sizes its buffers
+	// from the directory entry, the harness would do the same)
+	if m.fix.pw != "" && (res.Outcome == "OK" || res.Outcome == "PANIC") && res.Alloc < 512<<20 {
 		var info, pkg []byte
 		ok := c14Guard(func() string {
 			var err error
